@@ -7,7 +7,7 @@ use l21h::{json, Value};
 use layout21raw::utils::Ptr;
 use layout21raw::{
     Cell, Element, Int, Layer, LayerKey, LayerPurpose, Layers, Layout, Path, Point, Polygon, Rect,
-    Shape, Transform, Instance,
+    Shape, Transform, TransformTrait, Instance,
 };
 
 fn bits(x: f64) -> u64 {
@@ -114,7 +114,17 @@ fn op_chain(case: &Value) -> Value {
             pj(&q)
         })
         .collect();
+    // rectangles spanned by consecutive points, through the same composed transform: the image of a rectangle is the pair of the images
+    // of its two corner points (what `flatten` stores for a Rect element), at any angle
+    let rp: Vec<Value> = pts
+        .windows(2)
+        .map(|w| {
+            let r = layout21raw::Rect { p0: w[0], p1: w[1] }.transform(&t);
+            json!([pj(&r.p0), pj(&r.p1)])
+        })
+        .collect();
     json!({
+        "rp": rp,
         "fi": fi.iter().map(tbits).collect::<Vec<_>>(),
         "el": el.iter().map(tbits).collect::<Vec<_>>(),
         "t": tbits(&t), "tr": tbits(&tr), "te": tbits(&te),
